@@ -66,6 +66,8 @@ fn run_spec(s: &RunSpec, props: &BTreeSet<&'static str>, tier: Tier) -> Explore 
         max_depth: s.max_depth,
         adequacy: s.adequacy,
         collect_histories: false,
+        adequacy_depth: s.adequacy_depth,
+        adequacy_prop: if props.contains("C17") { "C17" } else { props.iter().next().copied().unwrap_or("C17") },
     };
     let mut ex = explore(d.as_ref(), props, &s.want, &limits);
     if !s.hashers.is_empty() {
@@ -113,6 +115,7 @@ fn op_list(h: &[Op]) -> Value {
 
 pub fn run(prop: &'static str, tier: Tier, seed: u64) -> i32 {
     let t0 = Instant::now();
+    let _ = crate::panics::CURRENT_PROP.set(prop.to_string());
     let props: BTreeSet<&'static str> = [prop].into_iter().collect();
     let part_out = std::env::var("MC_PART_OUT").ok();
     let part_in: Option<Value> = std::env::var("MC_PART_IN").ok().and_then(|p| std::fs::read_to_string(p).ok()).and_then(|t| serde_json::from_str(&t).ok());
@@ -173,6 +176,7 @@ pub fn run(prop: &'static str, tier: Tier, seed: u64) -> i32 {
         "C11" => reports.push(crate::lfu::run_tinylfu("C11", tier)),
         "C12" => reports.push(crate::grid::put_result_structural()),
         "C16" => reports.push(crate::lfu::run_tinylfu("C16", tier)),
+        "C17" => reports.push(crate::grid::conversion_determinism(tier)),
         "C18" => reports.push(crate::faults::run(tier)),
         "C19" => reports.push(crate::probes::run(tier)),
         "C20" => reports.push(crate::lfu::run_sampled("C20", tier)),
